@@ -61,8 +61,24 @@ impl FileStack {
     }
 
     fn add_files(&mut self, paths: &[PathBuf], reports: &mut ReportCollection) {
+        self.add_files_impl(paths, &mut HashSet::new(), reports);
+    }
+
+    fn add_files_impl(
+        &mut self,
+        paths: &[PathBuf],
+        visited_dirs: &mut HashSet<PathBuf>,
+        reports: &mut ReportCollection,
+    ) {
         for path in paths {
             if path.is_dir() {
+                // Each directory is only visited once. (A directory may contain symbolic
+                // links to itself or to one of its parent directories.)
+                if let Ok(dir) = fs::canonicalize(path) {
+                    if !visited_dirs.insert(dir) {
+                        continue;
+                    }
+                }
                 // Handle directories on a best effort basis only. Only Circom
                 // files are picked up from a directory.
                 if let Ok(entries) = fs::read_dir(path) {
@@ -73,7 +89,7 @@ impl FileStack {
                             path.is_dir() || path.extension().map_or(false, |ext| ext == "circom")
                         })
                         .collect();
-                    self.add_files(&paths, reports);
+                    self.add_files_impl(&paths, visited_dirs, reports);
                 } else {
                     // A directory which cannot be read is reported like a file which cannot.
                     reports.push(FileOsError { path: path.display().to_string() }.into_report());
